@@ -265,6 +265,25 @@ def call_builtin(eng, name, args, kwargs, st, node):
         return [(st, NONE)]
     if name == 'str':
         return [(st, V('str', z=eng.fresh('str', z3.StringSort())))]
+    if name == 'bytes' and len(args) == 2 and args[0].k == 'str' and args[1].k == 'str' \
+            and args[1].py in ('ascii', 'utf-8'):
+        sv = args[0]
+        if sv.py is not None:
+            try:
+                return [(st, V('bytes', py=sv.py.encode(args[1].py)))]
+            except UnicodeEncodeError:
+                return [(st, Raised(eng.make_exc('UnicodeEncodeError', node=node)))]
+        if args[1].py == 'utf-8':
+            return [(st, V('bytes', py=None, extra={'len': sv.extra['u8'], 'has_nul': sv.extra['has_nul']}))]
+        outs = []
+        for st1, isascii in eng.branch(st, sv.extra['ascii'], node):
+            if isascii:
+                st1.pc.append(sv.extra['u8'] == sv.extra['chars'])
+                outs.append((st1, V('bytes', py=None, extra={'len': sv.extra['chars'],
+                                                             'has_nul': sv.extra['has_nul']})))
+            else:
+                outs.append((st1, Raised(eng.make_exc('UnicodeEncodeError', node=node))))
+        return outs
     if name == 'bytes':
         h = eng.contract.hooks.get('bytes')
         if h:
